@@ -3,16 +3,20 @@ package sched
 // Oracles of C01, C02, C03, C06 and C07(a). Every clause cites the phrase of
 // the property statement (/verif/properties.jsonl) it implements. Shared
 // bookkeeping (task identities, worker assignments, reports) is always
-// maintained; violations are recorded through x.FailP(prop, ...), which
+// maintained; violations are recorded through m.fail(prop, ...), which
 // ignores properties other than the one being checked.
 
 import (
 	"context"
 	"encoding/json"
 	"fmt"
+	"os"
+	"regexp"
+	"runtime/debug"
 	"sort"
 	"strconv"
 	"strings"
+	"sync"
 	"time"
 
 	"verif/mc"
@@ -42,7 +46,14 @@ type taskInfo struct {
 	// Worker interaction.
 	starts       int
 	startWorkers []string
-	reports      []report
+	// Workers the task was ever seen assigned to at a quiescent point
+	// (includes workers that were handed the task while blocked in
+	// Synchronize and never saw the response).
+	assignedWorkers []string
+	reports         []report
+	// Largest number of consecutive requests in which a worker that was
+	// told to run this task did not claim to be running it.
+	maxRerequests int
 
 	// Learners: the first one seen attached; later ones follow through
 	// fakeLearner.grantedRetry.
@@ -121,6 +132,44 @@ func (m *monitors) install() {
 
 // ---------------------------------------------------------------------------
 // Small helpers
+
+var (
+	rePlatform = regexp.MustCompile(`main\|\{"properties":\[\{"name":"os","value":"(\w+)"\}\]\}`)
+	reToolKey  = regexp.MustCompile(`\{"@type":\s*"[^"]*RequestMetadata",\s*"toolInvocationId":\s*"(\w*)"\}`)
+	reCorrKey  = regexp.MustCompile(`\{"@type":\s*"[^"]*RequestMetadata",\s*"correlatedInvocationsId":\s*"(\w*)"\}`)
+	reBgKey    = regexp.MustCompile(`\{"@type":\s*"[^"]*BackgroundLearning"\}`)
+	reHost     = regexp.MustCompile(`\{"host":"(\w+)"\}`)
+	reDigest   = regexp.MustCompile(`1-([0-9a-f]{6})[0-9a-f]{58}-\d+-main`)
+)
+
+// pretty shortens the JSON-ish names of queues, invocations, workers and
+// digests in violation messages.
+func pretty(s string) string {
+	s = rePlatform.ReplaceAllString(s, "$1")
+	s = reToolKey.ReplaceAllString(s, "tool=$1")
+	s = reCorrKey.ReplaceAllString(s, "corr=$1")
+	s = reBgKey.ReplaceAllString(s, "background")
+	s = reHost.ReplaceAllString(s, "$1")
+	s = reDigest.ReplaceAllString(s, "digest:$1")
+	return s
+}
+
+// fail records a violation of one property (ignored unless that property
+// is the one being checked).
+func (m *monitors) fail(prop, fingerprint, format string, args ...any) {
+	if !mc.Active(prop) {
+		return
+	}
+	m.w.x.FailP(prop, fingerprint, "%s", pretty(fmt.Sprintf(format, args...)))
+}
+
+// failAll records a violation that counts for every property served by
+// the harness (panics inside the scheduler).
+func (m *monitors) failAll(fingerprint, format string, args ...any) {
+	for _, p := range core {
+		m.fail(p, fingerprint, format, args...)
+	}
+}
 
 func opNumber(name string) int {
 	if len(name) != 36 {
@@ -202,6 +251,40 @@ func (m *monitors) taskID(t *scheduler.VerifTask) int {
 	return id
 }
 
+// workerNameOfRef extracts the harness worker name from a snapshot worker
+// reference ("<queue>#{"host":"<name>"}").
+func workerNameOfRef(ref string) string {
+	if n, ok := workerNames.Load(ref); ok {
+		return n.(string)
+	}
+	n := parseWorkerNameOfRef(ref)
+	workerNames.Store(ref, n)
+	return n
+}
+
+var workerNames sync.Map
+
+func parseWorkerNameOfRef(ref string) string {
+	i := strings.LastIndex(ref, "#")
+	if i < 0 {
+		return ""
+	}
+	var id map[string]string
+	if json.Unmarshal([]byte(ref[i+1:]), &id) != nil {
+		return ""
+	}
+	return id["host"]
+}
+
+func containsString(l []string, s string) bool {
+	for _, e := range l {
+		if e == s {
+			return true
+		}
+	}
+	return false
+}
+
 func digestMatches(taskDigest string, d *remoteexecution.Digest) bool {
 	return d != nil && strings.Contains(taskDigest, d.Hash)
 }
@@ -222,7 +305,6 @@ func (m *monitors) refresh() {
 
 func (m *monitors) absorb(snap *scheduler.VerifSnap) {
 	w := m.w
-	x := w.x
 	now := w.clock.tick()
 	present := map[int]bool{}
 	for i := range snap.Tasks {
@@ -246,7 +328,12 @@ func (m *monitors) absorb(snap *scheduler.VerifSnap) {
 					ti.background = l.kind == "background"
 				}
 			} else if l.task != id {
-				x.FailP("C07", "learner/shared", "learner %v is attached to task %d and to task %d", l, l.task, id)
+				m.fail("C07", "learner/shared", "learner %v is attached to task %d and to task %d", l, l.task, id)
+			}
+		}
+		if t.CurrentWorker != "" {
+			if name := workerNameOfRef(t.CurrentWorker); name != "" && !containsString(ti.assignedWorkers, name) {
+				ti.assignedWorkers = append(ti.assignedWorkers, name)
 			}
 		}
 		if t.ExecuteResponse != nil && !ti.completedSeen {
@@ -264,7 +351,7 @@ func (m *monitors) absorb(snap *scheduler.VerifSnap) {
 				ti.gone = true
 				if !ti.completedSeen {
 					if l := ti.lastLearner(); l != nil && !(l.abandonedN == 1 && l.succeeded == 0 && l.failed == 0) {
-						x.FailP("C07", "learner/mismatch/vanished", "task %d disappeared without a result (abandoned by its clients) but its learner %v received succeeded=%d failed=%d abandoned=%d; expected exactly one Abandoned", id, l, l.succeeded, l.failed, l.abandonedN)
+						m.fail("C07", "learner/mismatch/vanished", "task %d disappeared without a result (abandoned by its clients) but its learner %v received succeeded=%d failed=%d abandoned=%d; expected exactly one Abandoned", id, l, l.succeeded, l.failed, l.abandonedN)
 					}
 				}
 			}
@@ -290,7 +377,6 @@ func (m *monitors) absorb(snap *scheduler.VerifSnap) {
 // itself produced for a stated cause"; C06: the timing clauses).
 func (m *monitors) classifyCompletion(ti *taskInfo, t *scheduler.VerifTask) {
 	w := m.w
-	x := w.x
 	cfg := w.cfg
 	r := ti.finalResp
 	now := ti.completionTick
@@ -313,26 +399,29 @@ func (m *monitors) classifyCompletion(ti *taskInfo, t *scheduler.VerifTask) {
 			// "worker disappeared": some worker that was told to run the
 			// task must have been silent for the worker timeout.
 			ok := false
-			for _, wn := range ti.startWorkers {
+			for _, wn := range ti.assignedWorkers {
 				wk := w.byName[wn].wk
-				if wk.returnedCalls > 0 && now >= wk.lastReturnedCallStart+cfg.WorkerTimeout {
+				// The call that returned last may have returned in the very
+				// step that expired the worker (its own enter() runs the
+				// garbage collector first): also accept the one before.
+				if wk.returnedCalls > 0 && now >= min(wk.lastReturnedCallStart, wk.prevReturnedCallStart)+cfg.WorkerTimeout {
 					ok = true
 				}
 			}
 			if !ok {
 				ti.finalProblem = fmt.Sprintf("UNAVAILABLE (worker disappeared) at tick %d although no worker assigned to the task had been silent for the worker timeout of %d ticks", now, cfg.WorkerTimeout)
-				x.FailP("C06", "early-worker-timeout", "task %d: %s (workers %v)", ti.id, ti.finalProblem, ti.startWorkers)
+				m.fail("C06", "early-worker-timeout", "task %d: %s (workers %v)", ti.id, ti.finalProblem, ti.assignedWorkers)
 			}
 		case st.Code() == codes.Unavailable && strings.Contains(msg, "disappeared while task was queued"):
 			ok := cfg.Predeclared == nil
 			for _, a := range w.actors {
-				if a.kind == "worker" && a.wk.returnedCalls > 0 && now < a.wk.lastReturnedCallStart+cfg.WorkerTimeout+cfg.QueueTimeout {
+				if a.kind == "worker" && a.wk.returnedCalls > 0 && now < min(a.wk.lastReturnedCallStart, a.wk.prevReturnedCallStart)+cfg.WorkerTimeout+cfg.QueueTimeout {
 					ok = false
 				}
 			}
 			if !ok {
 				ti.finalProblem = fmt.Sprintf("UNAVAILABLE (queue removed) at tick %d although the queue's workers had not been gone for worker timeout + queue timeout", now)
-				x.FailP("C06", "early-queue-removal", "task %d: %s", ti.id, ti.finalProblem)
+				m.fail("C06", "early-queue-removal", "task %d: %s", ti.id, ti.finalProblem)
 			}
 		case st.Code() == codes.Canceled && strings.Contains(msg, "no longer has any waiting clients"):
 			// Legitimate only for a task nobody can observe any more;
@@ -350,16 +439,9 @@ func (m *monitors) classifyCompletion(ti *taskInfo, t *scheduler.VerifTask) {
 				ti.finalProblem = "carries an operator status although no operator issued that kill"
 			}
 		case st.Code() == codes.Internal && strings.Contains(msg, "Attempted to execute task"):
-			ok := false
-			for _, wn := range ti.startWorkers {
-				wk := w.byName[wn].wk
-				if wk.assignedTask == ti.id && wk.rerequests >= cfg.RetryCount+1 {
-					ok = true
-				}
-			}
-			if !ok {
+			if ti.maxRerequests < cfg.RetryCount+1 {
 				ti.finalProblem = fmt.Sprintf("INTERNAL (retry limit) although no worker re-requested the task more than %d time(s)", cfg.RetryCount)
-				x.FailP("C06", "early-retry-limit", "task %d: %s", ti.id, ti.finalProblem)
+				m.fail("C06", "early-retry-limit", "task %d: %s", ti.id, ti.finalProblem)
 			}
 		default:
 			ti.finalProblem = "is neither a worker-supplied response nor a scheduler error with a stated cause"
@@ -370,13 +452,13 @@ func (m *monitors) classifyCompletion(ti *taskInfo, t *scheduler.VerifTask) {
 	if l := ti.lastLearner(); l != nil {
 		want := map[string][3]int{"worker-success": {1, 0, 0}, "worker-failure": {0, 1, 0}, "scheduler": {0, 0, 1}}[ti.finalClass]
 		if got := [3]int{l.succeeded, l.failed, l.abandonedN}; got != want {
-			x.FailP("C07", "learner/mismatch/"+ti.finalClass, "task %d completed with %s (%s) but its learner %v received succeeded=%d failed=%d abandoned=%d", ti.id, ti.finalClass, respSummary(r), l, l.succeeded, l.failed, l.abandonedN)
+			m.fail("C07", "learner/mismatch/"+ti.finalClass, "task %d completed with %s (%s) but its learner %v received succeeded=%d failed=%d abandoned=%d", ti.id, ti.finalClass, respSummary(r), l, l.succeeded, l.failed, l.abandonedN)
 		}
 	} else {
-		x.FailP("C07", "learner/none", "task %d completed but no learner was ever seen attached to it", ti.id)
+		m.fail("C07", "learner/none", "task %d completed but no learner was ever seen attached to it", ti.id)
 	}
 	if t.Learner != nil {
-		x.FailP("C07", "learner/kept-after-completion", "task %d is completed but still holds learner %v", ti.id, t.Learner)
+		m.fail("C07", "learner/kept-after-completion", "task %d is completed but still holds learner %v", ti.id, t.Learner)
 	}
 }
 
@@ -402,6 +484,9 @@ func (m *monitors) onStreamStart(s *stream) {
 // advance QUEUED -> EXECUTING -> COMPLETED, except for the documented fall
 // back to QUEUED when a failed action is retried on the largest size class".
 func (m *monitors) onMessage(s *stream, msg streamMsg) {
+	if m.w.x.Free() {
+		return
+	}
 	w := m.w
 	w.mu.Lock()
 	defer w.mu.Unlock()
@@ -422,7 +507,6 @@ func (m *monitors) onMessage(s *stream, msg streamMsg) {
 }
 
 func (m *monitors) onStreamTaskKnown(s *stream) {
-	x := m.w.x
 	ti := m.tasks[s.task]
 	if s.kind != "exec" {
 		return
@@ -430,7 +514,7 @@ func (m *monitors) onStreamTaskKnown(s *stream) {
 	// C03: "a new request arriving after completion starts a fresh execution".
 	for _, id := range s.completedAtStart {
 		if id == s.task {
-			x.FailP("C03", "attached-to-completed", "Execute %s started after task %d had completed, yet it was attached to that task", s.id, id)
+			m.fail("C03", "attached-to-completed", "Execute %s started after task %d had completed, yet it was attached to that task", s.id, id)
 		}
 	}
 	// C03: "Requests with do_not_cache set are never merged".
@@ -438,7 +522,7 @@ func (m *monitors) onStreamTaskKnown(s *stream) {
 		for _, a := range m.w.actors {
 			for _, o := range a.streams {
 				if o != s && o.kind == "exec" && o.task == s.task {
-					x.FailP("C03", "do-not-cache-merged", "Execute %s and %s of the do_not_cache action %s share task %d", o.id, s.id, s.action.spec.name, s.task)
+					m.fail("C03", "do-not-cache-merged", "Execute %s and %s of the do_not_cache action %s share task %d", o.id, s.id, s.action.spec.name, s.task)
 				}
 			}
 		}
@@ -447,15 +531,14 @@ func (m *monitors) onStreamTaskKnown(s *stream) {
 }
 
 func (m *monitors) checkStream(s *stream) {
-	x := m.w.x
 	if s.stageViolation != "" {
-		x.FailP("C02", "stage-order", "stream %s: %s", s.id, s.stageViolation)
+		m.fail("C02", "stage-order", "stream %s: %s", s.id, s.stageViolation)
 	}
 	if s.sendAfter {
-		x.FailP("C02", "send-after-done", "stream %s: a message was sent after the done message", s.id)
+		m.fail("C02", "send-after-done", "stream %s: a message was sent after the done message", s.id)
 	}
 	if s.nameChanged {
-		x.FailP("C02", "name-changed", "stream %s: operation name changed within one stream", s.id)
+		m.fail("C02", "name-changed", "stream %s: operation name changed within one stream", s.id)
 	}
 	d := s.doneMsg()
 	if d == nil || s.task == 0 {
@@ -463,23 +546,23 @@ func (m *monitors) checkStream(s *stream) {
 	}
 	ti := m.tasks[s.task]
 	if !ti.completedSeen {
-		x.FailP("C02", "done-before-completion", "stream %s received a done message (%s) although task %d was never observed completed", s.id, respSummary(d.resp), s.task)
+		m.fail("C02", "done-before-completion", "stream %s received a done message (%s) although task %d was never observed completed", s.id, respSummary(d.resp), s.task)
 		return
 	}
 	// C03: "all attached clients receive the same final response".
 	if !proto.Equal(d.resp, ti.finalResp) {
-		x.FailP("C03", "different-final-response", "stream %s received %s but task %d completed with %s", s.id, respSummary(d.resp), s.task, respSummary(ti.finalResp))
-		x.FailP("C02", "unfaithful-final-response", "stream %s received %s but task %d completed with %s", s.id, respSummary(d.resp), s.task, respSummary(ti.finalResp))
+		m.fail("C03", "different-final-response", "stream %s received %s but task %d completed with %s", s.id, respSummary(d.resp), s.task, respSummary(ti.finalResp))
+		m.fail("C02", "unfaithful-final-response", "stream %s received %s but task %d completed with %s", s.id, respSummary(d.resp), s.task, respSummary(ti.finalResp))
 	}
 	if ti.finalProblem != "" {
-		x.FailP("C02", "unfaithful-final-response/"+ti.finalClass, "stream %s: final response %s of task %d %s", s.id, respSummary(d.resp), s.task, ti.finalProblem)
+		m.fail("C02", "unfaithful-final-response/"+ti.finalClass, "stream %s: final response %s of task %d %s", s.id, respSummary(d.resp), s.task, ti.finalProblem)
 	}
 	// C03: "a client leaving does not disturb the others, and the task is
 	// cancelled only when its last operation is abandoned": a stream is a
 	// waiting client, so it can never be told that nobody is waiting.
 	if st := status.FromProto(d.resp.Status); st.Code() == codes.Canceled && strings.Contains(st.Message(), "no longer has any waiting clients") {
-		x.FailP("C03", "cancelled-with-waiter", "stream %s was told %q while it was waiting", s.id, st.Message())
-		x.FailP("C02", "cancelled-with-waiter", "stream %s was told %q while it was waiting", s.id, st.Message())
+		m.fail("C03", "cancelled-with-waiter", "stream %s was told %q while it was waiting", s.id, st.Message())
+		m.fail("C02", "cancelled-with-waiter", "stream %s was told %q while it was waiting", s.id, st.Message())
 	}
 }
 
@@ -487,6 +570,9 @@ func (m *monitors) checkStream(s *stream) {
 // returned. C02: "ends with exactly one message marked done, and nothing is
 // sent after it".
 func (m *monitors) onStreamEnd(s *stream, err error) {
+	if m.w.x.Free() {
+		return
+	}
 	w := m.w
 	x := w.x
 	w.mu.Lock()
@@ -498,28 +584,28 @@ func (m *monitors) onStreamEnd(s *stream, err error) {
 	switch {
 	case d != nil:
 		if err != nil {
-			x.FailP("C02", "error-after-done", "stream %s: call returned %v after the done message", s.id, err)
+			m.fail("C02", "error-after-done", "stream %s: call returned %v after the done message", s.id, err)
 		}
 		if dm := s.msgs[len(s.msgs)-1]; !dm.done {
-			x.FailP("C02", "send-after-done", "stream %s: messages after the done message", s.id)
+			m.fail("C02", "send-after-done", "stream %s: messages after the done message", s.id)
 		}
 	case s.sendFailed:
 		if err != errInjectedSend {
-			x.FailP("C02", "send-error-swallowed", "stream %s: Send failed with the injected error but the call returned %v", s.id, err)
+			m.fail("C02", "send-error-swallowed", "stream %s: Send failed with the injected error but the call returned %v", s.id, err)
 		}
 	case s.ctx.cancelled():
 		if err == nil {
-			x.FailP("C02", "nil-without-done", "stream %s: call returned nil without a done message (context cancelled)", s.id)
+			m.fail("C02", "nil-without-done", "stream %s: call returned nil without a done message (context cancelled)", s.id)
 		} else if code != codes.Canceled {
-			x.FailP("C02", "wrong-cancel-error", "stream %s: cancelled call returned %v", s.id, err)
+			m.fail("C02", "wrong-cancel-error", "stream %s: cancelled call returned %v", s.id, err)
 		}
 	case len(s.msgs) == 0:
 		// Rejected up front: not a stream.
 		if err == nil {
-			x.FailP("C02", "nil-without-done", "stream %s: call returned nil without any message", s.id)
+			m.fail("C02", "nil-without-done", "stream %s: call returned nil without any message", s.id)
 		}
 	default:
-		x.FailP("C02", "ended-without-done", "stream %s: call returned %v after %d message(s) without a done message although it was neither cancelled nor did Send fail", s.id, err, len(s.msgs))
+		m.fail("C02", "ended-without-done", "stream %s: call returned %v after %d message(s) without a done message although it was neither cancelled nor did Send fail", s.id, err, len(s.msgs))
 	}
 	x.Outcome("%s:%d%s/%s", s.id, len(s.msgs), map[bool]string{true: "D", false: ""}[d != nil], code)
 	if d != nil {
@@ -533,8 +619,10 @@ func (m *monitors) onStreamEnd(s *stream, err error) {
 // message marked done"; C06: "every blocked call ... returns once its
 // wake-up condition or timeout occurs".
 func (m *monitors) onForcedCancel(a *actor) {
+	if m.w.x.Free() {
+		return
+	}
 	w := m.w
-	x := w.x
 	snap := scheduler.VerifSnapshot(w.bq)
 	w.mu.Lock()
 	defer w.mu.Unlock()
@@ -568,9 +656,9 @@ func (m *monitors) onForcedCancel(a *actor) {
 		}
 		if why != "" {
 			msg := fmt.Sprintf("stream %s was never cancelled and Send never failed, yet it is still blocked without a done message after all timeouts elapsed (tick %d): %s", s.id, w.clock.tick(), why)
-			x.FailP("C02", "lost-wakeup/stream", "%s", msg)
-			x.FailP("C06", "lost-wakeup/stream", "%s", msg)
-			x.FailP("C07", "lost-wakeup/stream", "%s", msg)
+			m.fail("C02", "lost-wakeup/stream", "%s", msg)
+			m.fail("C06", "lost-wakeup/stream", "%s", msg)
+			m.fail("C07", "lost-wakeup/stream", "%s", msg)
 		}
 	case "operator":
 		// TerminateWorkers may only wait for tasks that still execute.
@@ -585,7 +673,7 @@ func (m *monitors) onForcedCancel(a *actor) {
 			}
 		}
 		if !busy {
-			x.FailP("C06", "lost-wakeup/terminate-workers", "operator %s is still blocked in TerminateWorkers although no worker holds a task", a.name)
+			m.fail("C06", "lost-wakeup/terminate-workers", "operator %s is still blocked in TerminateWorkers although no worker holds a task", a.name)
 		}
 	}
 }
@@ -594,6 +682,9 @@ func (m *monitors) onForcedCancel(a *actor) {
 // Workers (C01 behavioural, C03 start counting, C06 retry limit, C07)
 
 func (m *monitors) onWorkerCallStart(a *actor) {
+	if m.w.x.Free() {
+		return
+	}
 	w := m.w
 	wk := a.wk
 	if wk.reqReport == nil {
@@ -626,11 +717,27 @@ func (m *monitors) onWorkerCallEnd(a *actor, resp *remoteworker.SynchronizeRespo
 	wk := a.wk
 	var snap *scheduler.VerifSnap
 	exec := resp.GetDesiredState().GetExecuting()
+	if w.x.Free() {
+		// Race pass: only keep the worker's script state up to date.
+		w.mu.Lock()
+		defer w.mu.Unlock()
+		wk.req, wk.reqReport = nil, nil
+		if exec != nil {
+			wk.assigned = exec.ActionDigest
+		} else if resp.GetDesiredState().GetIdle() != nil {
+			wk.assigned = nil
+		}
+		return
+	}
 	if exec != nil {
 		snap = scheduler.VerifSnapshot(w.bq)
 	}
 	w.mu.Lock()
 	defer w.mu.Unlock()
+	wk.prevReturnedCallStart = wk.lastReturnedCallStart
+	if wk.returnedCalls == 0 {
+		wk.prevReturnedCallStart = wk.callStart
+	}
 	wk.lastReturnedCallStart = wk.callStart
 	wk.returnedCalls++
 	wk.req = nil
@@ -654,30 +761,30 @@ func (m *monitors) onWorkerCallEnd(a *actor, resp *remoteworker.SynchronizeRespo
 		vw, vscq, n := m.findWorker(snap, a.name, a.wspec.SizeClass)
 		_ = n
 		if vw == nil {
-			x.FailP("C01", "execute/unknown-worker", "worker %s was told to execute %s but is not in any worker table", a.name, digestShort(d))
+			m.fail("C01", "execute/unknown-worker", "worker %s was told to execute %s but is not in any worker table", a.name, digestShort(d))
 			return
 		}
 		if vw.CurrentTask < 0 {
-			x.FailP("C01", "execute/no-task", "worker %s was told to execute %s but no task is assigned to it", a.name, digestShort(d))
+			m.fail("C01", "execute/no-task", "worker %s was told to execute %s but no task is assigned to it", a.name, digestShort(d))
 			return
 		}
 		t := &snap.Tasks[vw.CurrentTask]
 		if !digestMatches(t.ActionDigest, d) {
-			x.FailP("C01", "execute/wrong-task", "worker %s was told to execute %s but its assigned task has digest %s", a.name, digestShort(d), t.ActionDigest)
+			m.fail("C01", "execute/wrong-task", "worker %s was told to execute %s but its assigned task has digest %s", a.name, digestShort(d), t.ActionDigest)
 		}
 		if t.ExecuteResponse != nil {
-			x.FailP("C01", "execute/completed-task", "worker %s was told to execute %s although that task has completed (%s)", a.name, digestShort(d), respSummary(t.ExecuteResponse))
+			m.fail("C01", "execute/completed-task", "worker %s was told to execute %s although that task has completed (%s)", a.name, digestShort(d), respSummary(t.ExecuteResponse))
 		}
 		if t.CurrentWorker != vw.Ref {
-			x.FailP("C01", "execute/not-owner", "worker %s was told to execute a task whose current worker is %q", a.name, t.CurrentWorker)
+			m.fail("C01", "execute/not-owner", "worker %s was told to execute a task whose current worker is %q", a.name, t.CurrentWorker)
 		}
 		id := m.taskID(t)
 		ti := m.tasks[id]
 		if ti != nil && ti.completedSeen {
-			x.FailP("C01", "execute/completed-task", "worker %s was told to execute task %d, which had been observed completed earlier", a.name, id)
+			m.fail("C01", "execute/completed-task", "worker %s was told to execute task %d, which had been observed completed earlier", a.name, id)
 		}
 		if exec.Action == nil {
-			x.FailP("C01", "execute/no-action", "worker %s was told to execute %s without an Action", a.name, digestShort(d))
+			m.fail("C01", "execute/no-action", "worker %s was told to execute %s without an Action", a.name, digestShort(d))
 			return
 		}
 		if id != 0 && id == wk.assignedTask {
@@ -691,20 +798,20 @@ func (m *monitors) onWorkerCallEnd(a *actor, resp *remoteworker.SynchronizeRespo
 				// execution" - one start per task, one more per learner-
 				// requested retry on the largest size class.
 				if ti.starts > 1+ti.retriesGranted() {
-					x.FailP("C03", "second-execution", "task %d (digest %s) was started %d times on workers %v with %d size-class retries", id, digestShort(d), ti.starts, ti.startWorkers, ti.retriesGranted())
+					m.fail("C03", "second-execution", "task %d (digest %s) was started %d times on workers %v with %d size-class retries", id, digestShort(d), ti.starts, ti.startWorkers, ti.retriesGranted())
 				}
 			}
 		}
 		// C06: "a task a worker keeps re-requesting is failed with INTERNAL
 		// after the configured number of retries".
 		if wk.toldCount > w.cfg.RetryCount+1 {
-			x.FailP("C06", "retry-limit-not-enforced", "worker %s was told %d times in a row to execute task %d (WorkerTaskRetryCount=%d)", a.name, wk.toldCount, id, w.cfg.RetryCount)
+			m.fail("C06", "retry-limit-not-enforced", "worker %s was told %d times in a row to execute task %d (WorkerTaskRetryCount=%d)", a.name, wk.toldCount, id, w.cfg.RetryCount)
 		}
 		if ti != nil {
 			l := ti.lastLearner()
 			// C07: "background learning runs are uncacheable".
 			if ti.background && !exec.Action.DoNotCache {
-				x.FailP("C07", "background/cacheable", "background learning task %d was handed to worker %s without do_not_cache", id, a.name)
+				m.fail("C07", "background/cacheable", "background learning task %d was handed to worker %s without do_not_cache", id, a.name)
 			}
 			// C07: "a failure on a smaller size class is retried once on
 			// the largest" (with the timeout that Failed returned).
@@ -714,7 +821,7 @@ func (m *monitors) onWorkerCallEnd(a *actor, resp *remoteworker.SynchronizeRespo
 					prev = prev.grantedRetry
 				}
 				if got := exec.Action.Timeout.AsDuration(); got != prev.retryTimeout {
-					x.FailP("C07", "retry/timeout", "retried task %d runs with timeout %s, Failed() returned %s", id, got, prev.retryTimeout)
+					m.fail("C07", "retry/timeout", "retried task %d runs with timeout %s, Failed() returned %s", id, got, prev.retryTimeout)
 				}
 				largest := vscq.SizeClass
 				for _, pq := range snap.PlatformQueues {
@@ -725,7 +832,7 @@ func (m *monitors) onWorkerCallEnd(a *actor, resp *remoteworker.SynchronizeRespo
 					}
 				}
 				if vscq.SizeClass != largest {
-					x.FailP("C07", "retry/size-class", "retried task %d was handed to a worker of size class %d, largest is %d", id, vscq.SizeClass, largest)
+					m.fail("C07", "retry/size-class", "retried task %d was handed to a worker of size class %d, largest is %d", id, vscq.SizeClass, largest)
 				}
 			}
 		}
@@ -740,6 +847,9 @@ func (m *monitors) onOperatorCallEnd(a *actor, oc *operatorCall) {
 // onLearnerCall runs inside the fake learner (w.mu held, bq.lock held by
 // the calling thread or by the controller during the final expiry).
 func (m *monitors) onLearnerCall(l *fakeLearner, call string, timedOut bool) {
+	if m.w.x.Free() {
+		return
+	}
 	w := m.w
 	x := w.x
 	if call == "Abandoned" {
@@ -751,19 +861,19 @@ func (m *monitors) onLearnerCall(l *fakeLearner, call string, timedOut bool) {
 		a = w.byName[t.Name]
 	}
 	if a == nil || a.kind != "worker" || a.wk.reqReport == nil {
-		x.FailP("C07", "learner/"+call+"/no-report", "learner %v received %s although the calling thread is not a worker reporting a completed action", l, call)
+		m.fail("C07", "learner/"+call+"/no-report", "learner %v received %s although the calling thread is not a worker reporting a completed action", l, call)
 		return
 	}
 	r := a.wk.reqReport
 	if a.wk.assigned == nil || a.wk.assigned.Hash != l.digest {
-		x.FailP("C07", "learner/"+call+"/other-action", "learner %v of action %s received %s from worker %s reporting on action %s", l, l.digest[:6], call, a.name, digestShort(a.wk.assigned))
+		m.fail("C07", "learner/"+call+"/other-action", "learner %v of action %s received %s from worker %s reporting on action %s", l, l.digest[:6], call, a.name, digestShort(a.wk.assigned))
 	}
 	if ok := reportIsSuccess(r); ok != (call == "Succeeded") {
-		x.FailP("C07", "learner/"+call+"/wrong-outcome", "learner %v received %s but worker %s reported %s", l, call, a.name, respSummary(r))
+		m.fail("C07", "learner/"+call+"/wrong-outcome", "learner %v received %s but worker %s reported %s", l, call, a.name, respSummary(r))
 	}
 	if call == "Failed" {
 		if want := status.FromProto(r.Status).Code() == codes.DeadlineExceeded; want != timedOut {
-			x.FailP("C07", "learner/Failed/timed-out-flag", "learner %v received Failed(timedOut=%v) but worker %s reported %s", l, timedOut, a.name, respSummary(r))
+			m.fail("C07", "learner/Failed/timed-out-flag", "learner %v received Failed(timedOut=%v) but worker %s reported %s", l, timedOut, a.name, respSummary(r))
 		}
 	}
 }
@@ -785,8 +895,7 @@ func isQueuedInv(i *scheduler.VerifInvocation) bool {
 }
 
 func (m *monitors) checkC01(snap *scheduler.VerifSnap) {
-	x := m.w.x
-	fail := func(fp, format string, args ...any) { x.FailP("C01", fp, format, args...) }
+	fail := func(fp, format string, args ...any) { m.fail("C01", fp, format, args...) }
 
 	opHeap := map[string][]heapLoc{}
 	idleList := map[string][]heapLoc{} // worker ref -> positions in idle lists
@@ -1039,7 +1148,6 @@ func (m *monitors) checkC01(snap *scheduler.VerifSnap) {
 // C03: structural part
 
 func (m *monitors) checkC03(snap *scheduler.VerifSnap) {
-	x := m.w.x
 	live := map[string][]int{}
 	for i := range snap.Tasks {
 		t := &snap.Tasks[i]
@@ -1056,7 +1164,7 @@ func (m *monitors) checkC03(snap *scheduler.VerifSnap) {
 		if t.ExecuteResponse != nil {
 			// "the task is cancelled only when its last operation is abandoned"
 			if st := status.FromProto(t.ExecuteResponse.Status); st.Code() == codes.Canceled && strings.Contains(st.Message(), "no longer has any waiting clients") {
-				x.FailP("C03", "cancelled-with-operations", "task %d was cancelled for lack of waiting clients although %d operation(s) still refer to it", id, len(t.Operations))
+				m.fail("C03", "cancelled-with-operations", "task %d was cancelled for lack of waiting clients although %d operation(s) still refer to it", id, len(t.Operations))
 			}
 			continue
 		}
@@ -1064,30 +1172,46 @@ func (m *monitors) checkC03(snap *scheduler.VerifSnap) {
 			live[t.ActionDigest] = append(live[t.ActionDigest], id)
 			// "any further Execute request for the same action digest
 			// attaches to that task": it must be findable.
-			if !t.InDeduplicationMap {
-				x.FailP("C03", "live-task-not-in-map", "cacheable task %d (%s) is %s but not in the in-flight deduplication map", id, t.ActionDigest, t.Stage)
+			if !t.InDeduplicationMap && os.Getenv("SCHED_MUTE_MAPCHECK") == "" {
+				m.fail("C03", "live-task-not-in-map/"+m.dedupContext(id, t.ActionDigest), "cacheable task %d (%s) is %s but not in the in-flight deduplication map: the next Execute of this action would start a second execution", id, t.ActionDigest, t.Stage)
 			}
 		}
 	}
 	for d, ids := range live {
 		if len(ids) > 1 {
 			sort.Ints(ids)
-			x.FailP("C03", "two-live-tasks", "tasks %v for the same cacheable action %s are in flight at the same time", ids, d)
+			m.fail("C03", "two-live-tasks/"+m.dedupContext(ids[len(ids)-1], d), "tasks %v for the same cacheable action %s are in flight at the same time", ids, d)
 		}
 	}
+}
+
+// dedupContext names the history that distinguishes the ways in which the
+// in-flight deduplication map can lose a live task (part of the
+// fingerprint): the task was retried on the largest size class, a
+// background learning run for the same action digest exists or existed, or
+// neither.
+func (m *monitors) dedupContext(id int, digest string) string {
+	if ti := m.tasks[id]; ti != nil && ti.retriesGranted() > 0 {
+		return "retried"
+	}
+	for _, o := range m.tasks {
+		if o.background && o.digestHash == digest {
+			return "background-run-of-same-action"
+		}
+	}
+	return "plain"
 }
 
 // ---------------------------------------------------------------------------
 // C06: timeouts fire when due; leak check at the end
 
 func (m *monitors) checkC06(snap *scheduler.VerifSnap) {
-	x := m.w.x
 	// "after the worker timeout / no-waiter timeout / ...": the lazy
 	// garbage collector must have run everything that was due at the time
 	// the scheduler last looked at the clock.
 	for _, c := range snap.Cleanup {
 		if c.Timestamp <= snap.Now {
-			x.FailP("C06", "overdue-cleanup", "a cleanup due at tick %d is still pending although the scheduler's clock is at tick %d", nsTick(c.Timestamp), nsTick(snap.Now))
+			m.fail("C06", "overdue-cleanup", "a cleanup due at tick %d is still pending although the scheduler's clock is at tick %d", nsTick(c.Timestamp), nsTick(snap.Now))
 		}
 	}
 	// A worker that is not inside Synchronize must be armed for removal,
@@ -1095,7 +1219,7 @@ func (m *monitors) checkC06(snap *scheduler.VerifSnap) {
 	for _, pq := range snap.PlatformQueues {
 		for _, scq := range pq.SizeClassQueues {
 			if scq.MayBeRemoved && len(scq.Workers) == 0 && !scq.CleanupActive {
-				x.FailP("C06", "queue-not-armed", "dynamic size class queue %s has no workers but no removal is scheduled", scq.Name)
+				m.fail("C06", "queue-not-armed", "dynamic size class queue %s has no workers but no removal is scheduled", scq.Name)
 			}
 			for _, wk := range scq.Workers {
 				name := ""
@@ -1103,7 +1227,7 @@ func (m *monitors) checkC06(snap *scheduler.VerifSnap) {
 					if a.kind == "worker" && workerKeyJSON(a.name) == wk.Key && a.wspec.SizeClass == scq.SizeClass {
 						name = a.name
 						if !a.inCall && !wk.CleanupActive {
-							x.FailP("C06", "worker-not-armed", "worker %s is not synchronizing but no removal is scheduled for it", a.name)
+							m.fail("C06", "worker-not-armed", "worker %s is not synchronizing but no removal is scheduled for it", a.name)
 						}
 					}
 				}
@@ -1113,7 +1237,7 @@ func (m *monitors) checkC06(snap *scheduler.VerifSnap) {
 	}
 	for _, o := range snap.Operations {
 		if o.InNameMap && o.Waiters == 0 && !o.MayExistWithoutWaiters && !o.CleanupActive {
-			x.FailP("C06", "operation-not-armed", "operation %s has no waiters but no removal is scheduled for it", opShort(o.Name))
+			m.fail("C06", "operation-not-armed", "operation %s has no waiters but no removal is scheduled for it", opShort(o.Name))
 		}
 	}
 }
@@ -1122,7 +1246,6 @@ func (m *monitors) checkC06(snap *scheduler.VerifSnap) {
 // C07(a): structural part
 
 func (m *monitors) checkC07(snap *scheduler.VerifSnap) {
-	x := m.w.x
 	bgKey := string(invocation.BackgroundLearningKeys[0])
 	for _, pq := range snap.PlatformQueues {
 		for _, scq := range pq.SizeClassQueues {
@@ -1130,7 +1253,7 @@ func (m *monitors) checkC07(snap *scheduler.VerifSnap) {
 				if c.Path[0] == bgKey {
 					// "background learning runs are ... bounded in number"
 					if n := len(c.QueuedOperations); n > pq.MaximumQueuedBackgroundLearningOperations {
-						x.FailP("C07", "background/backlog", "size class queue %s holds %d queued background learning operations, limit %d", scq.Name, n, pq.MaximumQueuedBackgroundLearningOperations)
+						m.fail("C07", "background/backlog", "size class queue %s holds %d queued background learning operations, limit %d", scq.Name, n, pq.MaximumQueuedBackgroundLearningOperations)
 					}
 				}
 			}
@@ -1143,14 +1266,14 @@ func (m *monitors) checkC07(snap *scheduler.VerifSnap) {
 			continue
 		}
 		if ti.background && t.HasAction && !t.DoNotCache {
-			x.FailP("C07", "background/cacheable", "background learning task %d does not have do_not_cache set", ti.id)
+			m.fail("C07", "background/cacheable", "background learning task %d does not have do_not_cache set", ti.id)
 		}
 		// Retry: "retried once on the largest" with what Failed returned.
 		if l, ok := t.Learner.(*fakeLearner); ok && l != nil && t.ExecuteResponse == nil {
 			for p := ti.firstLearner; p != nil; p = p.grantedRetry {
 				if p.grantedRetry == l {
 					if t.ExpectedDuration != p.retryExpected || (t.HasAction && t.ActionTimeout != p.retryTimeout) {
-						x.FailP("C07", "retry/parameters", "retried task %d has expected duration %s / timeout %s, Failed() returned %s / %s", ti.id, t.ExpectedDuration, t.ActionTimeout, p.retryExpected, p.retryTimeout)
+						m.fail("C07", "retry/parameters", "retried task %d has expected duration %s / timeout %s, Failed() returned %s / %s", ti.id, t.ExpectedDuration, t.ActionTimeout, p.retryExpected, p.retryTimeout)
 					}
 					largest := ""
 					for _, pq := range snap.PlatformQueues {
@@ -1159,7 +1282,7 @@ func (m *monitors) checkC07(snap *scheduler.VerifSnap) {
 								if strings.HasPrefix(o.Invocation, scq.Name+"/") {
 									largest = pq.SizeClassQueues[len(pq.SizeClassQueues)-1].Name
 									if scq.Name != largest {
-										x.FailP("C07", "retry/size-class", "retried task %d sits in size class queue %s, largest is %s", ti.id, scq.Name, largest)
+										m.fail("C07", "retry/size-class", "retried task %d sits in size class queue %s, largest is %s", ti.id, scq.Name, largest)
 									}
 								}
 							}
@@ -1175,6 +1298,31 @@ func (m *monitors) checkC07(snap *scheduler.VerifSnap) {
 // Finish: expire everything, then nothing may be left (C06); every selector
 // and learner has had its one call (C07)
 
+// poke makes the scheduler look at the clock (runs the lazy garbage
+// collector). A panic inside the scheduler is a violation.
+func (m *monitors) poke() (ok bool) {
+	defer func() {
+		if r := recover(); r != nil {
+			m.failAll("panic/final-expiry/"+firstLine(fmt.Sprint(r)), "panic while expiring everything at the end of the run: %v\n%s", r, debug.Stack())
+			ok = false
+		}
+	}()
+	if _, err := m.w.bq.ListPlatformQueues(context.Background(), &emptypb.Empty{}); err != nil {
+		panic(err)
+	}
+	return true
+}
+
+func firstLine(s string) string {
+	if i := strings.IndexByte(s, '\n'); i >= 0 {
+		s = s[:i]
+	}
+	if len(s) > 80 {
+		s = s[:80]
+	}
+	return s
+}
+
 func (m *monitors) finish() {
 	w := m.w
 	x := w.x
@@ -1186,8 +1334,8 @@ func (m *monitors) finish() {
 		w.clock.mu.Lock()
 		w.clock.now += step
 		w.clock.mu.Unlock()
-		if _, err := w.bq.ListPlatformQueues(context.Background(), &emptypb.Empty{}); err != nil {
-			panic(err)
+		if !m.poke() {
+			return
 		}
 		snap = scheduler.VerifSnapshot(w.bq)
 		m.locks = 0
@@ -1211,7 +1359,7 @@ func (m *monitors) finish() {
 					bgInvocations++
 					bgOps += len(ch.QueuedOperations)
 					if len(ch.QueuedOperations) > pq.MaximumQueuedBackgroundLearningOperations {
-						x.FailP("C06", "leak/background-backlog", "queue %s retains %d background operations, limit %d", scq.Name, len(ch.QueuedOperations), pq.MaximumQueuedBackgroundLearningOperations)
+						m.fail("C06", "leak/background-backlog", "queue %s retains %d background operations, limit %d", scq.Name, len(ch.QueuedOperations), pq.MaximumQueuedBackgroundLearningOperations)
 					}
 				}
 			}
@@ -1220,7 +1368,7 @@ func (m *monitors) finish() {
 	cnt := snap.Counts
 	leak := func(what string, got, allowed int) {
 		if got > allowed {
-			x.FailP("C06", "leak/"+what, "after all participants are gone and all timeouts have passed, the scheduler still retains %d %s (allowed: %d); counts=%v", got, what, allowed, cnt)
+			m.fail("C06", "leak/"+what, "after all participants are gone and all timeouts have passed, the scheduler still retains %d %s (allowed: %d); counts=%v", got, what, allowed, cnt)
 		}
 	}
 	leak("operations", cnt["operations"], bgOps)
@@ -1245,7 +1393,7 @@ func (m *monitors) finish() {
 	defer w.mu.Unlock()
 	for _, s := range w.analyzer.selectors {
 		if s.selects+s.abandoned != 1 {
-			x.FailP("C07", "selector/not-exactly-one", "selector %d received %d Select and %d Abandoned calls", s.id, s.selects, s.abandoned)
+			m.fail("C07", "selector/not-exactly-one", "selector %d received %d Select and %d Abandoned calls", s.id, s.selects, s.abandoned)
 		}
 	}
 	pending := map[*fakeLearner]bool{}
@@ -1258,12 +1406,12 @@ func (m *monitors) finish() {
 		switch n := l.terminals(); {
 		case n == 1:
 			if l.task == 0 && (l.succeeded > 0 || l.failed > 0) {
-				x.FailP("C07", "learner/unattached-outcome", "learner %v never belonged to a task but received succeeded=%d failed=%d", l, l.succeeded, l.failed)
+				m.fail("C07", "learner/unattached-outcome", "learner %v never belonged to a task but received succeeded=%d failed=%d", l, l.succeeded, l.failed)
 			}
 		case n == 0 && pending[l] && l.kind == "background":
 			// still queued in a predeclared queue: allowed to remain
 		default:
-			x.FailP("C07", "learner/not-exactly-one", "learner %v (task %d) received succeeded=%d failed=%d abandoned=%d terminal calls", l, l.task, l.succeeded, l.failed, l.abandonedN)
+			m.fail("C07", "learner/not-exactly-one", "learner %v (task %d) received succeeded=%d failed=%d abandoned=%d terminal calls", l, l.task, l.succeeded, l.failed, l.abandonedN)
 		}
 	}
 }
@@ -1364,7 +1512,7 @@ func (m *monitors) buildKey(snap *scheduler.VerifSnap) string {
 			b.s(" sl=").i(a.sleepUntil)
 		}
 		if wk := a.wk; wk != nil {
-			b.s(" wk=").i(wk.calls).s("/").s(digestShort(wk.assigned)).s("/").i(wk.assignedTask).s("/").i(wk.toldCount).s("/").i(wk.rerequests).s("/").i(wk.lastReturnedCallStart).s("/").i(wk.returnedCalls).s("/").i(wk.reports)
+			b.s(" wk=").i(wk.calls).s("/").s(digestShort(wk.assigned)).s("/").i(wk.assignedTask).s("/").i(wk.toldCount).s("/").i(wk.rerequests).s("/").i(wk.lastReturnedCallStart).s("/").i(wk.prevReturnedCallStart).s("/").i(wk.returnedCalls).s("/").i(wk.reports)
 			if wk.req != nil {
 				b.s("/").s(wk.reqKind).s("/").i(wk.reqPreTask).s("@").i(wk.callStart)
 			}
@@ -1395,6 +1543,10 @@ func (m *monitors) buildKey(snap *scheduler.VerifSnap) string {
 		ti := m.tasks[id]
 		b.s(" M").i(id).s(" st=").i(ti.starts)
 		for _, sw := range ti.startWorkers {
+			b.s(sw).s(",")
+		}
+		b.s(" mr=").i(ti.maxRerequests).s(" aw=")
+		for _, sw := range ti.assignedWorkers {
 			b.s(sw).s(",")
 		}
 		b.s(" cs=").bl(ti.completedSeen).s(" g=").bl(ti.gone).s(" fc=").s(ti.finalClass).s(" fp=").bl(ti.finalProblem != "").s(" fr=").s(respSummary(ti.finalResp)).s(" rp=")
